@@ -281,6 +281,8 @@ pub struct World<A: App> {
     /// Blackhole: drop everything sent by these nodes
     pub blackhole: Vec<bool>,
     pub blackhole_default: bool,
+    /// Nodes that no longer receive anything (frozen; the puppet speaks in their place)
+    pub deaf: Vec<bool>,
     /// Take a probe snapshot before every poll_transmit (C12/C13)
     pub probe_pre: bool,
     /// Do not forward Drained to the endpoint and keep drained connections live (C20 part 5)
@@ -321,6 +323,7 @@ impl<A: App> World<A> {
             make_app,
             blackhole: Vec::new(),
             blackhole_default: false,
+            deaf: Vec::new(),
             probe_pre: false,
             hold_drained: false,
             timer_streak: (Duration::ZERO, 0, 0, 0),
@@ -369,6 +372,7 @@ impl<A: App> World<A> {
             incomings: Vec::new(),
         });
         self.blackhole.push(self.blackhole_default);
+        self.deaf.push(false);
         n
     }
 
@@ -684,6 +688,12 @@ impl<A: App> World<A> {
             });
             return Routed::NoSuchNode;
         };
+        if self.deaf[node] {
+            self.recs.push(Rec::Deliver {
+                t: self.t, node, idx: f.idx, src: f.src, len: f.data.len(), routed: Routed::Nothing, injected: f.injected,
+            });
+            return Routed::Nothing;
+        }
         let now = self.now();
         let mut buf = Vec::new();
         let len = f.data.len();
@@ -737,6 +747,9 @@ impl<A: App> World<A> {
             best = Some((self.net[i].at, NextEv::Net(i)));
         }
         for (ni, n) in self.nodes.iter().enumerate() {
+            if self.deaf[ni] {
+                continue;
+            }
             for (ch, s) in &n.conns {
                 if let Some(to) = s.conn.poll_timeout() {
                     let d = to.saturating_duration_since(self.base);
